@@ -334,3 +334,63 @@ def ob_field_names(r, tier, seed):
 _c19_obl4 = obligations
 def obligations():
     return _c19_obl4() + [Ob('O19.6-struct-field-names', 'declaration, literal and read of a struct field use one Go name', ob_field_names, ('quick', 'thorough'), 2, {})]
+
+# ----------------------------------------------------------------------------- O19.7 enum variants get distinct Go struct names (among each other and against struct types)
+def ob_variant_names(r, tier, seed):
+    import os, subprocess, tempfile, shutil, re as _re, itertools
+    from mirsym.engine import Agg, PyVec, Ref, mkstr
+    W = e2.fresh_world(CRATES); tt = W.tt
+    TY = tt.find_adt(['tast', 'Ty'], 'compiler'); ED = tt.find_adt(['env', 'EnumDef'], 'compiler'); SD = tt.find_adt(['env', 'StructDef'], 'compiler'); TI = tt.find_adt(['tast', 'TastIdent'], 'compiler')
+    GOENV = tt.find_adt(['go', 'compile', 'GlobalGoEnv'], 'compiler')
+    enames = ['Color', 'Paint::Color', 'Signal::Color', 'Shade']; vsets = [('Red', 'Green'), ('Red', 'Blue'), ('Blue',)]
+    r.bounds = 'two enums with names drawn from %s (distinct) and variant sets from %s, variant_struct_name for every variant' % (enames, [list(v) for v in vsets])
+    r.assumptions = ['environments hold only these definitions', 'oracle: the Go struct names of all variants are pairwise distinct']
+    def ident(n): return Agg(TI.key, 0, [mkstr(n)])
+    def entry(ex):
+        e1 = ex.choose([(True, n) for n in enames]); e2_ = ex.choose([(True, n) for n in enames if n != e1])
+        v1 = ex.choose([(True, v) for v in vsets]); v2 = ex.choose([(True, v) for v in vsets])
+        with_struct = False      # a struct and a variant of one name cannot coexist in an accepted program (`Constructor Red refers to an enum`): not part of the obligation
+        genv = ex.call('env::GlobalTypeEnv::new_empty', []); genv2 = ex.call('env::GlobalTypeEnv::new_empty', [])
+        monoenv = ex.call('mono::GlobalMonoEnv::from_genv', [genv2]); hm = {0: monoenv}
+        for en, vs in ((e1, v1), (e2_, v2)):
+            ex.call('mono::GlobalMonoEnv::insert_enum', [Ref(hm, 0), Agg(ED.key, 0, [ident(en), PyVec([]), PyVec([Agg('tuple', 0, [ident(v), PyVec([])]) for v in vs])])])
+        if with_struct: ex.call('mono::GlobalMonoEnv::insert_struct', [Ref(hm, 0), Agg(SD.key, 0, [ident('Red'), PyVec([]), PyVec([])])])
+        liftenv = ex.call('lift::GlobalLiftEnv::from_monoenv', [hm[0]])
+        h = {0: Agg(GOENV.key, 0, [genv, liftenv])}
+        names = {}
+        for en, vs in ((e1, v1), (e2_, v2)):
+            for v in vs:
+                hh = {0: mkstr(en), 1: mkstr(v)}
+                names[(en, v)] = ms.pystr(ex.call('go::compile::variant_struct_name', [Ref(h, 0), Ref(hh, 0), Ref(hh, 1)]))
+        if with_struct:
+            hh = {0: mkstr('Red')}; names[('struct', 'Red')] = ms.pystr(ex.call('go::mangle::go_ident', [Ref(hh, 0)]))
+        return names
+    res = e2.explore(r, W, entry, [])
+    found = {}
+    for p in res:
+        r.cases += 1
+        if p.kind != 'ok': raise Unsupported('variant_struct_name panicked: %s' % p.value)
+        names = p.value; r.nontrivial += 1
+        inv = {}
+        for k, v in names.items(): inv.setdefault(v, []).append(k)
+        for goname, ks in inv.items():
+            if len(ks) > 1:
+                key = 'variant-vs-struct-name' if any(k[0] == 'struct' for k in ks) else ('variant-name-collision:same-short-enum-name' if len(set(k[0].split('::')[-1] for k in ks)) == 1 and len(set(k[0] for k in ks)) > 1 else 'variant-name-collision')
+                found.setdefault(key, (goname, ks))
+        if len(r.samples) < 2 and len(inv) == len(names): r.samples.append({'names': {'%s::%s' % k: v for k, v in names.items()}})
+    for key, (goname, ks) in found.items():
+        ok_, detail = True, 'names returned by the real variant_struct_name / go_ident MIR'
+        if key == 'variant-vs-struct-name':
+            src = 'struct Red { v: int32 }\nenum Color { Red, Green }\nfn f(c: Color) -> int32 { match c { Red => 1, Green => 2 } }\nfn main() -> unit { let r = Red { v: 1 }; string_println(int32_to_string(f(Green) + r.v)) }\n'
+            d = tempfile.mkdtemp(prefix='vf-c19-')
+            try:
+                open(os.path.join(d, 'main.gom'), 'w').write(src)
+                out = subprocess.run([build.compiler_bin(), 'run', '--dump-go', os.path.join(d, 'main.gom')], capture_output=True, text=True, timeout=60)
+            finally: shutil.rmtree(d, ignore_errors=True)
+            n_ = len(_re.findall(r'^type Red struct', out.stdout, _re.M)); ok_ = n_ > 1 or 'error' in out.stderr
+            detail = 'goml `%s`: the Go text declares `type Red struct` %d times; stderr: %s' % (src.replace('\n', ' | '), n_, out.stderr[:120])
+        r.findings.append(Finding(key, 'the Go name `%s` is given to %s' % (goname, ['%s of %s' % (k[1], k[0]) if k[0] != 'struct' else 'struct ' + k[1] for k in ks]), {'go_name': goname, 'entities': [list(k) for k in ks]}, ok_, detail))
+
+_c19_obl5 = obligations
+def obligations():
+    return _c19_obl5() + [Ob('O19.7-variant-struct-names', 'enum variants get distinct Go struct names', ob_variant_names, ('quick', 'thorough'), 5, {})]
